@@ -289,6 +289,14 @@ class Interp(object):
     def lookup_global(self, name, env):
         if name in ('np', 'numpy'):
             return NPV
+        if name in ('copy', 'deepcopy'):
+            def cp(v):
+                if isinstance(v, Vec):
+                    return Vec(v.val, v.space)
+                if isinstance(v, (list, dict)):
+                    return type(v)(v)
+                return v
+            return Builtin(name, cp)
         if name in self.model.classes:
             return ClassV(self.model.classes[name])
         cands = self.model.func_by_name.get(name)
@@ -546,13 +554,18 @@ class Interp(object):
                 return obj.get(k, d)
             return Builtin('dict.' + name, pop)
         if is_scalar(obj):
+            r_ = to_rat(obj)
+            isreal = all((v in self.real_scalars) or (
+                isinstance(v, tuple) and v and v[0] in (
+                    'norm', 'abs', 'real', 'imag', 'F', 'red'))
+                for v in r_.vars())
             if name in ('real',):
-                return obj
+                return obj if isreal else Rat.var(('real', r_))
             if name in ('conjugate', 'conj'):
                 return Builtin('conj', lambda o=obj: vs.conj_scalar(
                     to_rat(o), self.real_scalars))
             if name == 'imag':
-                raise Undecided('imaginary part of a scalar')
+                return 0 if isreal else Rat.var(('imag', r_))
         if isinstance(obj, (list, tuple)) and name == 'append':
             return Builtin('append', obj.append)
         raise Undecided('attribute %s of %r' % (name, obj))
@@ -708,8 +721,14 @@ class Interp(object):
                 return Rat.var(('sqrt', r))
             return Builtin('np.sqrt', sq)
         if name in ('conj', 'conjugate'):
-            return Builtin('np.conj', lambda v: vs.conj_scalar(
-                to_rat(v), I.real_scalars))
+            def npconj(v):
+                if isinstance(v, Vec):
+                    if v.space.is_real:
+                        return Vec(v.val, v.space)
+                    return Vec(vs.conj(v.val, I.real_scalars, I.real_vecs),
+                               v.space)
+                return vs.conj_scalar(to_rat(v), I.real_scalars)
+            return Builtin('np.conj', npconj)
         if name == 'isnan':
             return Builtin('np.isnan', lambda v: isinstance(v, Opaque)
                            and v.desc == 'np.nan')
@@ -979,12 +998,8 @@ class Interp(object):
                     cur.val = vs.scale(cur.val, Rat.const(1) / to_rat(v))
                 else:
                     cur.val = vs.div(cur.val, self.vec_val(v))
-            elif isinstance(s.op, ast.Pow) and isinstance(v, int) and v >= 0:
-                base = dict(cur.val)
-                r = vs.sym('ONE') if v == 0 else dict(base)
-                for _ in range(v - 1):
-                    r = vs.mul(r, base)
-                cur.val = r
+            elif isinstance(s.op, ast.Pow) and is_scalar(v):
+                cur.val = vs.powv(cur.val, to_rat(v))
             else:
                 raise Undecided('augmented %s on a vector' % type(
                     s.op).__name__)
@@ -1346,11 +1361,8 @@ class Interp(object):
             if op is ast.Sub:
                 return Vec(vs.add(l.val, vs.scale(vs.sym('ONE'), s), -1),
                            l.space)
-            if op is ast.Pow and isinstance(r, int) and r >= 1:
-                out = dict(l.val)
-                for _ in range(r - 1):
-                    out = vs.mul(out, l.val)
-                return Vec(out, l.space)
+            if op is ast.Pow:
+                return Vec(vs.powv(l.val, s), l.space)
         if rv and is_scalar(l):
             s = to_rat(l)
             if op is ast.Mult:
